@@ -208,7 +208,15 @@ impl Search {
 
         #[cfg(rce_verif)]
         verif::schedule_point("BEFORE_BESTMOVE");
-        self.log(format!("bestmove {}", self.info.best_move.unwrap()).as_str());
+        // No iteration finished (e.g. a tiny node or time budget): fall back to any legal move
+        let best_move = self.info.best_move.unwrap_or_else(|| {
+            self.original_board
+                .get_legal_moves()
+                .first()
+                .copied()
+                .unwrap_or_default()
+        });
+        self.log(format!("bestmove {best_move}").as_str());
         #[cfg(rce_verif)]
         verif::schedule_point("AFTER_BESTMOVE");
     }
